@@ -116,7 +116,15 @@ impl<'a> World<'a> {
         // onto publishes the broker never acknowledged (a parked publish must not
         // delay the report)
         if self.silent && self.cfg.limit == 3 && self.user_left > 0 {
-            self.user_request();
+            // (from a seeded moment of the silence on: before or after the first
+            // unanswered ping)
+            if self.c18_pub_delay.is_none() {
+                let k = self.k_ms();
+                self.c18_pub_delay = Some(*self.ch.choose(&[0u64, k / 2, k, 3 * k / 2]));
+            }
+            if now >= self.silent_t.unwrap_or(now) + self.c18_pub_delay.unwrap_or(0) {
+                self.user_request();
+            }
         }
         // light traffic in either direction
         let n = self.ch.pick(3);
